@@ -323,7 +323,16 @@ func runC01() {
 	for i := range t.Props {
 		g.props[t.Props[i].Name] = &t.Props[i]
 	}
-	em := newEmitter()
+	K := *pubShards
+	if K < 1 {
+		K = 1
+	}
+	ems := make([]*emitter, K)
+	for k := range ems {
+		ems[k] = newEmitter()
+	}
+	shardCases := make([][]string, K)
+	shardIdx := make([][]int, K)
 	s := &Summary{Rule: "documents derived from the tables of the four shipped vocabularies: every type, random known properties with values of every kind of their range (IRI, each literal kind, embedded objects to depth 3, lists of 1..4), natural-language maps, the four contexts, unknown members (numbers, strings, arrays, nested objects, nulls); a canonical stream and a non-canonical one (single-element arrays, +00:00 / minute-precision timestamps, non-normal durations, 0/1 booleans, nulls, both spellings, nested arrays, type arrays, nested @context)", Dist: map[string]interface{}{}}
 	per := 6
 	if *tier != "quick" {
@@ -333,6 +342,8 @@ func runC01() {
 	var meta []interface{}
 	accepted, rejected := 0, 0
 	process := func(tyName string, canonical bool, d map[string]interface{}) {
+		shard := len(cases) % K
+		em := ems[shard]
 		b, _ := json.Marshal(d)
 		var m map[string]interface{}
 		_ = json.Unmarshal(b, &m)
@@ -394,7 +405,9 @@ func runC01() {
 		} else {
 			rejected++
 		}
-		cases = append(cases, fmt.Sprintf("(%s, %s, %s, %s)", coqBool(canonical), em.json(b2, true), outS, out2S))
+		shardIdx[shard] = append(shardIdx[shard], len(cases))
+		shardCases[shard] = append(shardCases[shard], fmt.Sprintf("(%s, %s, %s, %s)", coqBool(canonical), em.json(b2, true), outS, out2S))
+		cases = append(cases, "")
 		meta = append(meta, map[string]interface{}{"type": tyName, "canonical": canonical, "document": b2, "round_trip": out})
 		s.Evaluations++
 	}
@@ -492,11 +505,19 @@ func runC01() {
 		}
 	}
 	s.Dist["sweep_documents"] = sweeps
-	var sb strings.Builder
-	sb.WriteString("From Coq Require Import String List ZArith.\nFrom Verif Require Import Base.Json.\nImport ListNotations.\nOpen Scope string_scope.\n")
-	sb.WriteString(em.defs.String())
-	sb.WriteString("Definition observed : list (bool * json * option json * option json) := [\n" + strings.Join(cases, ";\n") + "\n].\n")
-	writeFile("observed.v", []byte(sb.String()))
+	for k := 0; k < K; k++ {
+		var sb strings.Builder
+		sb.WriteString("From Coq Require Import String List ZArith.\nFrom Verif Require Import Base.Json.\nImport ListNotations.\nOpen Scope string_scope.\n")
+		sb.WriteString(ems[k].defs.String())
+		sb.WriteString("Definition observed : list (bool * json * option json * option json) := [\n" + strings.Join(shardCases[k], ";\n") + "\n].\n")
+		if K == 1 {
+			writeFile("observed.v", []byte(sb.String()))
+		} else {
+			writeFile(fmt.Sprintf("shard_%d/observed.v", k), []byte(sb.String()))
+			ib, _ := json.Marshal(shardIdx[k])
+			writeFile(fmt.Sprintf("shard_%d/index.json", k), ib)
+		}
+	}
 	s.Distinct = len(cases)
 	s.Dist["accepted"] = accepted
 	s.Dist["rejected"] = rejected
